@@ -208,7 +208,11 @@ def check_pixel(R, x, nodata, c0, c1, meta, mp_check=False):
             return
     if mp_check:
         xw = np.asarray(x, dtype=np.float64)[c0:c1]
-        r = O.spi_mp(np.asarray(x, dtype=np.float64), nodata, xw[xw != nodata])
+        try:
+            r = O.spi_mp(np.asarray(x, dtype=np.float64), nodata, xw[xw != nodata])
+        except Exception:  # mpmath's root finder / series did not converge for this pixel: no independent reference
+            R.count("mpmath_no_reference")
+            r = None
         if r is not None:
             a_mp, b_mp, p0_mp, vals = r
             R.count("mpmath_pixels")
